@@ -34,7 +34,7 @@ func genWhen(t *rapid.T, label string) M {
 	if rapid.IntRange(0, 4).Draw(t, label+".hostile?") == 0 {
 		o.Hostile = true
 	}
-	po := gen.PatOpts{Opts: o, PropVar: rapid.IntRange(0, 3).Draw(t, label+".propvar?") == 0}
+	po := gen.PatOpts{Opts: o, PropVar: rapid.IntRange(0, 3).Draw(t, label+".propvar?") == 0, Optional: true}
 	if rapid.IntRange(0, 5).Draw(t, label+".specialvars?") == 0 {
 		// variables named like the bindings the engine adds itself
 		po.VarPool = []string{"?x", "?location", "?event", "?ruleId"}
